@@ -772,6 +772,9 @@ let rec run toks =
         | Some (Some t) -> set_edge n fn (apply1 (szf fnew) (fun v -> v) fs.rule fnew.rule lv O t)
         | _ -> ()) names;
     emit (Printf.sprintf "read roots=%d" (List.length l))
+  | "order" :: fn :: _ ->
+    let f = get_forest fn in
+    emit (Stdlib.String.concat " " ("order" :: List.map string_of_int (Array.to_list f.order)))
   | "reorder" :: fn :: vars ->
     let f = get_forest fn in
     if f.lab <> MT then begin
